@@ -4,7 +4,7 @@ import subprocess
 import vlib
 
 META = {
-    "engine": "ThreadLife.tla, ParFor.tla, SyncPrims.tla",
+    "engine": "ThreadLife.tla, ThreadGroupLife.tla, ParFor.tla, SyncPrims.tla, Trace_SyncPrims.tla",
     "technique": "TLC enumerates all creator/worker interleavings of ThreadLife.tla (invariants + termination under fairness); "
                  "each is forced onto real asl::Thread objects by a token-passing scheduler at the library's hook points and "
                  "compared step by step; ParFor.tla's partition theorem is checked over the whole index grid and each grid "
@@ -30,6 +30,10 @@ def run(ctx):
         ctx.model("ThreadLife", "MC_ThreadLife_" + fl, emit_to=p, workers=1, timeout=300, must_cover=True,
                   ignore_cov=("CSpin", "CSpun", "WBody") if fl == "subclass" else ())
         parts.append(p)
+    p = os.path.join(ctx.tmp, "tg.cases")
+    ctx.model("ThreadGroupLife", ctx.pick("MC_ThreadGroupLife_2", "MC_ThreadGroupLife_3"), emit_to=p, workers=ctx.pick(4, 16),
+              timeout=ctx.pick(300, 1800), must_cover=True)
+    parts.append(p)
     # non-vacuity of the invariants: the pre-fix design (SelfCopy) must be rejected by the model
     r = vlib.tlc("ThreadLife", "MC_ThreadLife_lambda_asis", workers=1, timeout=300)
     if r.violated() != "FinishedAfterJoin":
